@@ -116,6 +116,8 @@ JudgeSplit(e) ==
     /\ Check(e, "WholeWhenFree",    \A i \in bigs :
                                        (\A j \in bigs : (j # i /\ e.fam[j].c = e.fam[i].c) => (hhi(e.fam[i]) < hlo(e.fam[j]) \/ hhi(e.fam[j]) < hlo(e.fam[i])))
                                        => \E k \in DOMAIN P : P[k].c = e.fam[i].c /\ Rng(P[k].vs) = Rng(e.fam[i].vs))
+    /\ Check(e, "CutOnlyWhereOverlapping", \A c \in chr :
+                                       KeptTogether(BlocksOn(e, c), { Rng(P[k].vs) : k \in { m \in DOMAIN P : P[m].c = c } }))
     /\ Check(e, "Blocks",           e.det.blocks = Cardinality(bigs))
     /\ Check(e, "Singletons",       e.det.singletons = Cardinality({ i \in DOMAIN e.fam : Len(e.fam[i].vs) = 1 }))
     /\ Check(e, "Phased",           e.det.phased = SumOver(bigs, [i \in bigs |-> Len(e.fam[i].vs)]))
